@@ -188,6 +188,15 @@ void FnEmitter::emitInst(const Instruction& I) {
     case Instruction::Xor: op = "^"; break;
     }
     std::string ct = T.ctOf(n);
+    if (I.getOpcode() == Instruction::Sub && n == 64) {
+      // ptrtoint(p) - ptrtoint(q)  ==>  C pointer subtraction, which CBMC resolves to an offset difference
+      auto* P0 = dyn_cast<PtrToIntOperator>(I.getOperand(0));
+      auto* P1 = dyn_cast<PtrToIntOperator>(I.getOperand(1));
+      if (P0 && P1) {
+        assign(I, "VF_PTRDIFF(" + val(P0->getPointerOperand()) + ", " + val(P1->getPointerOperand()) + ")");
+        return;
+      }
+    }
     std::string e = "(" + ct + ")" + val(I.getOperand(0)) + " " + op + " (" + ct + ")" + val(I.getOperand(1));
     assign(I, "(" + ty(Ty) + ")" + T.mask("(" + e + ")", n));
     return;
